@@ -18,6 +18,7 @@ pub mod c33;
 pub mod dbg;
 pub mod c22;
 pub mod c24;
+pub mod c25;
 pub mod c27;
 pub mod c31;
 pub mod c32;
@@ -45,6 +46,7 @@ pub fn dispatch(id: &str, args: &Args) -> i32 {
         "C21" => drive_main(&c21::C21, args),
         "C22" => drive_main(&c22::C22, args),
         "C24" => drive_main(&c24::C24, args),
+        "C25rs" => drive_main(&c25::C25rs, args),
         "C27" => drive_main(&c27::C27, args),
         "C31" => drive_main(&c31::C31, args),
         "C32" => drive_main(&c32::C32, args),
